@@ -39,14 +39,37 @@ class C17(Prop):
 
     def gen_case(self, rng, k, tier):
         steps = rng.choice([1, 2, 3])
-        first = rng.choice([0, 3])
+        first = rng.choice([0, 3, 8, 9])        # 8, 9: the step number gains a digit inside the trace
         nr = rng.choice([1, 2, 3])
         case: Dict[str, Any] = {"control": _mk_set(rng, nr, steps, first, 0)}
-        mode = rng.choice(["other", "other", "self2", "sameobj"])
+        mode = rng.choice(["other", "other", "self2", "sameobj", "shrunk"])
         case["mode"] = mode
-        if mode == "other":
+        if mode == "shrunk":
+            # the same program with fewer calls: identical name sets on both sides, smaller counts and durations on the test side
+            import copy
+            test = copy.deepcopy(case["control"])
+            for rk in test:
+                evs = rk["events"]
+                names: Dict[str, int] = {}
+                for e in evs:
+                    if e.get("ph") == "X" and "dur" in e:
+                        names[e["name"]] = names.get(e["name"], 0) + 1
+                keep = []
+                for i, e in enumerate(evs):
+                    leaf = e.get("ph") == "X" and "dur" in e and e.get("cat") in ("cpu_op", "kernel", "gpu_memcpy", "gpu_memset") and i > 0 and \
+                        not any(o is not e and o.get("ph") == "X" and "dur" in o and o["pid"] == e["pid"] and o["tid"] == e["tid"]
+                                and e["ts"] <= o["ts"] and o["ts"] + o["dur"] <= e["ts"] + e["dur"] for o in evs)
+                    if leaf and names[e["name"]] >= 2 and rng.random() < 0.4:
+                        names[e["name"]] -= 1
+                        continue
+                    keep.append(e)
+                rk["events"] = keep
+            case["test"] = test
+            case["mode"] = mode = "other"
+            case["shrunk"] = True
+        elif mode == "other":
             nr2 = rng.choice([1, 2, 3])
-            case["test"] = _mk_set(rng, nr2, rng.choice([1, 2, 3]), rng.choice([first, first, 7]), 1)
+            case["test"] = _mk_set(rng, nr2, rng.choice([1, 2, 3]), rng.choice([first, first, 7, 9]), 1)
         def sel(n_ranks, steps_, first_):
             rk = rng.choice(["default", "one", "list", "list"])
             ranks = None if rk == "default" else rng.randrange(n_ranks) if rk == "one" else sorted(rng.sample(range(n_ranks), rng.randint(1, n_ranks)))
@@ -89,7 +112,12 @@ class C17(Prop):
             def norm(side_lt, sel):
                 ranks, iters = sel
                 rr = side_lt.ranks()[:1] if ranks is None else [ranks] if isinstance(ranks, int) else list(ranks)
-                ii = side_lt.iterations()[:1] if iters is None else [iters] if isinstance(iters, int) else list(iters)
+                # the default is the FIRST iteration: the smallest profiler-step number of the trace, read off the rows (not asked of the
+                # object under test)
+                steps = sorted({int(x["name"].split("#")[1]) for x in _side_rows(side_lt) if x["name"].startswith("ProfilerStep#")})
+                ii = steps[:1] if iters is None else [iters] if isinstance(iters, int) else list(iters)
+                if iters is None and not steps:
+                    raise ValueError("no iterations")
                 return rr, ii
             try:
                 cr, ci = norm(lc, case["csel"])
